@@ -31,6 +31,10 @@ CLAIMS = {
    text="Lean 4 theorems: for all predictors and differentials in -32..31 half samples the reconstructed component is (p+d+32) mod 64 - 32; for every sum of four components the chroma component is sign(s)*(2*floor(|s|/16)+tab16(|s| mod 16)); median_of is the median; the half-sample split is (floor(v/2), v odd); predict_candidate equals the two-dimensional neighbour rule at every position of every picture width >= 1 for all four block indices (no lookup fails); the regenerated MVD tree decodes all 64 Table-14 codewords (decide +kernel) and is prefix-free; range constants regenerated. Exhaustive correspondence through the mv_decode / predict_candidate hooks.",
    note="Axioms: propext, Classical.choice, Quot.sound. That intra / not-coded neighbours contribute zero candidates is an invariant of the macroblock loop (the decoder stores zero vectors for them), exercised by correspondence on P pictures (C03 generator), not proved here.",
    design="DESIGN.md §4 C12", technique="Lean 4 proof (omega, case analysis, decide +kernel over the regenerated table) + exhaustive correspondence"),
+ "C10": dict(
+   text="Lean 4 theorems evaluated by native_decide over a bit-exact soft-float (binary32, RNE, no FMA) model of the IDCT with the basis table regenerated from the source: for generator seed 1 and each of the six Annex A ranges (10,000 blocks each) peak error <= 1, per-position mse <= 0.06, overall mse <= 0.02, per-position mean error <= 0.015, overall mean error <= 0.0015 against an exact (40-digit) reference transform; all 4095 DC-only blocks and 20,000 random first-row / first-column blocks within 1; all-zero block -> zeros (kernel decide). The model is tied to the real idct_channel bit for bit by correspondence on the same blocks (predictions 0 and 255), and the five statistics are recomputed from the implementation's own outputs.",
+   note="Axioms: propext, Classical.choice, Quot.sound and, for the nine statistical theorems, the per-call native_decide axioms (trust in the Lean compiler/runtime) - the only theorems in the framework that use native_decide. The reference transform uses 40-digit cosine constants and exact integer arithmetic in place of the procedure's double precision (difference < 1e-33). A universal (all blocks) peak-error theorem is not claimed. The u8 output plane shows residuals only within -255..255, so the implementation-side statistics clip at -255; the model-level theorems use -256..255.",
+   design="DESIGN.md §4 C10", technique="Lean 4 native_decide over a soft-float model with regenerated table + bit-exact correspondence"),
 }
 
 PENDING = {}
